@@ -1,4 +1,5 @@
 import Nstd.Life.LemmasAll
+import Nstd.Life.LemmasAlias
 /-
   Property theorems of the Life area.
 
@@ -43,5 +44,87 @@ def sampleOps : List Op :=
    .hInsert 0 none 4 40, .sInsert 0 none 4, .sRemoveSet 0 0, .pAppend 0 9, .qAppend 0 1 2, .swap ⟨.P, 0⟩ 1]
 
 example : (execAll (run init sampleOps) destroyAll).isSome = true := by decide +kernel
+
+-- C04: copies are deep ----------------------------------------------------------------------------------------
+
+/-- C04 `copy_fresh`.  In every reachable state two different container variables never share an element
+    slot, and an element slot of a node container is never inside the storage of an array: whatever a copy
+    construction / assignment / insert-from-other-container produced lives in slots of its own
+    (a shallow copy, as the implicit MultiMap copy was, is impossible). -/
+theorem copy_fresh (ops : List Op) (c c' : Var) (it : Item)
+    (h1 : it ∈ ((run init ops).nodes c).items) (h2 : it ∈ ((run init ops).nodes c').items) : c = c' :=
+  (reach_ok ops).1.slot_owner (List.mem_append_left _ h1) (List.mem_append_left _ h2)
+
+theorem copy_fresh_arr (ops : List Op) (a a' s : Nat)
+    (h1 : ((run init ops).arrs a).store = some s) (h2 : ((run init ops).arrs a').store = some s) : a = a' := by
+  have := (reach_ok ops).1.own_unique (.arr a) (.arr a') s h1 h2
+  cases this; rfl
+
+-- C04: self arguments behave as if copied first ------------------------------------------------------------------
+
+/-- `c = c` (every kind, every state): nothing happens - no event, same state. -/
+theorem assign_self_noop (st : State) (c : Var) : step st (.assign c c.v) = st := by
+  unfold step stepRes
+  by_cases hg : (c.v ≤ 1 ∧ c.k.isPool = false)
+  · simp [compile, guard', hg, execAll]
+  · simp [compile, guard', hg]
+
+/-- `a.append(a[i])` in any reachable state never faults and equals `x = a[i]; a.append(x)`:
+    both append the payload the element had before the call (also when the storage is reallocated). -/
+theorem append_ref_as_if_copied (ops : List Op) (v i x : Nat) (hv : v ≤ 1)
+    (hx : (absArr (run init ops) v)[i]? = some (some x)) :
+    ∃ s1 s2, stepRes (run init ops) (.aAppendRef v i) = .ok s1 ∧ stepRes (run init ops) (.aAppend v x) = .ok s2 ∧
+      absArr s1 v = absArr s2 v ∧ absArr s1 v = absArr (run init ops) v ++ [some x] := by
+  have h := (reach_ok ops).1
+  obtain ⟨s1, h1, a1⟩ := aAppendRef_abs h v i (some x) hv hx
+  obtain ⟨s2, h2, a2⟩ := aAppend_abs h v x hv (alive_of_abs h hx)
+  exact ⟨s1, s2, h1, h2, by rw [a1, a2], a1⟩
+
+/-- `a.resize(n, a[i])` (growing) equals `x = a[i]; a.resize(n, x)`. -/
+theorem resize_ref_as_if_copied (ops : List Op) (v n i x : Nat) (hv : v ≤ 1)
+    (hx : (absArr (run init ops) v)[i]? = some (some x)) (hn : ((run init ops).arrs v).size ≤ n) :
+    ∃ s1 s2, stepRes (run init ops) (.aResizeRef v n i) = .ok s1 ∧ stepRes (run init ops) (.aResize v n x) = .ok s2 ∧
+      absArr s1 v = absArr s2 v ∧
+      absArr s1 v = absArr (run init ops) v ++ List.replicate (n - ((run init ops).arrs v).size) (some x) := by
+  have h := (reach_ok ops).1
+  obtain ⟨s1, h1, a1⟩ := aResizeRef_abs h v n i (some x) hv hx hn
+  obtain ⟨s2, h2, a2⟩ := aResize_abs h v n x hv (alive_of_abs h hx) hn
+  exact ⟨s1, s2, h1, h2, by rw [a1, a2], a1⟩
+
+/-- `a.append(&a[i], n)` with the range inside the array appends a copy of the old elements i .. i+n-1. -/
+theorem append_ptr_as_if_copied (ops : List Op) (v i n : Nat) (hv : v ≤ 1)
+    (ha : ((run init ops).arrs v).alive = true) (hin : i + n ≤ ((run init ops).arrs v).size) :
+    ∃ s, stepRes (run init ops) (.aAppendPtr v i n) = .ok s ∧
+      absArr s v = absArr (run init ops) v ++ (List.range n).map (fun j => ((absArr (run init ops) v)[i + j]?).join) :=
+  aAppendPtr_abs (reach_ok ops).1 v i n hv ha hin
+
+/-- `a.append(a)` appends a copy of the old contents. -/
+theorem append_self_as_if_copied (ops : List Op) (v : Nat) (hv : v ≤ 1) (ha : ((run init ops).arrs v).alive = true) :
+    ∃ s, stepRes (run init ops) (.aAppendArr v v) = .ok s ∧
+      absArr s v = absArr (run init ops) v ++ absArr (run init ops) v := by
+  have h := (reach_ok ops).1
+  obtain ⟨s, h1, a1⟩ := aAppendSelf_abs h v hv ha
+  refine ⟨s, h1, ?_⟩
+  rw [a1, ← absArr_length _ v h, range_get_self]
+
+/-- `l.append(l)` (pos = none), `l.prepend(l)` (pos = some 0), `l.insert(it_p, l)`: terminates without fault and
+    yields  (elements before p) ++ (a copy of the whole original list) ++ (elements from p on) -
+    what inserting an independent copy of the list yields. -/
+theorem list_insert_self_as_if_copied (ops : List Op) (v : Nat) (hv : v ≤ 1)
+    (ha : ((run init ops).nodes ⟨.L, v⟩).alive = true) (pos : Option Nat)
+    (hp : pos.getD (absNode (run init ops) ⟨.L, v⟩).length ≤ (absNode (run init ops) ⟨.L, v⟩).length) :
+    ∃ s, stepRes (run init ops) (.lInsertList v pos v) = .ok s ∧
+      absNode s ⟨.L, v⟩ =
+        (absNode (run init ops) ⟨.L, v⟩).take (pos.getD (absNode (run init ops) ⟨.L, v⟩).length) ++
+        absNode (run init ops) ⟨.L, v⟩ ++
+        (absNode (run init ops) ⟨.L, v⟩).drop (pos.getD (absNode (run init ops) ⟨.L, v⟩).length) :=
+  lInsertSelf_abs (reach_ok ops).1 v hv ha pos hp
+
+/-- non-vacuity of the alias theorems: a reachable state with a full array (size 3 = capacity 3) and a list -/
+def aliasOps : List Op := [.aAppend 0 5, .aAppend 0 6, .aAppend 0 7, .lInsert 0 none 1, .lInsert 0 none 2]
+example : (absArr (run init aliasOps) 0)[0]? = some (some 5) ∧ ((run init aliasOps).arrs 0).size = 3 ∧
+    ((run init aliasOps).arrs 0).cap = 3 ∧ ((run init aliasOps).arrs 0).alive = true ∧
+    ((run init aliasOps).nodes ⟨.L, 0⟩).alive = true ∧ (absNode (run init aliasOps) ⟨.L, 0⟩).length = 2 := by
+  decide +kernel
 
 end Nstd.Life
